@@ -198,6 +198,16 @@ static int apply_list(struct xcm_socket *s, struct xcm_attr_map *m, const char *
     return fails;
 }
 
+#include <pthread.h>
+static struct xcm_socket *drain_sock; static volatile int drain_stop;
+static void *drainer(void *arg)
+{
+    static char b[70000];
+    usleep(150000);
+    while (!drain_stop) { int rc = xcm_receive(drain_sock, b, sizeof(b)); if (rc < 0 && errno == EAGAIN) usleep(500); else if (rc <= 0) break; }
+    return NULL;
+}
+
 int main(void)
 {
     static char line[H_LINE_MAX];
@@ -337,6 +347,32 @@ int main(void)
 		bool a = false; xcm_attr_get_bool(s, "xcm.blocking", &a);
 		fprintf(o, "%d is_blocking=%d attr=%d\n", rc, xcm_is_blocking(s), a);
 	    }
+	} else if (!strcmp(w[0], "BLK") && n == 3) {
+	    /* BLK <proto> <api|attr>: switch to blocking mode while a message is still buffered in XCM (the peer
+	       starts reading a little later, from another thread): the switch must finish the outstanding work */
+	    struct trio t;
+	    if (sys_establish(w[1], &t, NULL, NULL) < 0) { fprintf(o, "fail %s\n", h_errname(errno)); fflush(o); continue; }
+	    static char big[60000]; memset(big, 'z', sizeof(big));
+	    bool bs = sys_is_bytestream(w[1]);
+	    int rc = 0, sent = 0, eagain = 0;
+	    for (int i = 0; i < 4000 && eagain < 3; i++) {
+		rc = xcm_send(t.client, big, sizeof(big));
+		if (rc >= 0) { sent++; eagain = 0; } else if (errno == EAGAIN) eagain++; else break;
+	    }
+	    int64_t fa0 = -1, tl0 = -1;
+	    xcm_attr_get_int64(t.client, bs ? "xcm.from_app_bytes" : "xcm.from_app_msgs", &fa0);
+	    xcm_attr_get_int64(t.client, bs ? "xcm.to_lower_bytes" : "xcm.to_lower_msgs", &tl0);
+	    pthread_t th; drain_sock = t.accepted; drain_stop = 0;
+	    pthread_create(&th, NULL, drainer, NULL);
+	    int src = !strcmp(w[2], "api") ? xcm_set_blocking(t.client, true) : xcm_attr_set_bool(t.client, "xcm.blocking", true);
+	    int se = errno;
+	    int64_t fa1 = -1, tl1 = -1;
+	    xcm_attr_get_int64(t.client, bs ? "xcm.from_app_bytes" : "xcm.from_app_msgs", &fa1);
+	    xcm_attr_get_int64(t.client, bs ? "xcm.to_lower_bytes" : "xcm.to_lower_msgs", &tl1);
+	    drain_stop = 1; pthread_join(th, NULL);
+	    fprintf(o, "blk rc=%d %s pending_before=%lld pending_after=%lld blocking=%d\n", src, src < 0 ? h_errname(se) : "-",
+		    (long long)(fa0 - tl0), (long long)(fa1 - tl1), xcm_is_blocking(t.client));
+	    sys_close_trio(&t);
 	} else if (!strcmp(w[0], "IN") && n == 4) {
 	    /* IN <proto> <server bool attrs k=v,...> <accept bool attrs>: what the accepted connection reports */
 	    struct xcm_attr_map *sm = xcm_attr_map_create(), *am = xcm_attr_map_create();
